@@ -456,6 +456,13 @@ def check_multi(col, wd, spec):
     sec_text = "s: %s\nl:\n  - plain\n  - %s\n" % (fe.encrypt_text("alpha", OLD_ID), fe.encrypt_text("beta", OLD_ID))
     order = spec["order"]
     files = {"plain.yaml": plain_text, "secret.yaml": sec_text}
+    # two more files stamped from one template: the SAME anchor name holds a different secret in each
+    twins = {}
+    for n, (p1, p2) in (("site_a.yaml", ("gamma", "delta")), ("site_b.yaml", ("epsilon", "zeta"))):
+        if n in order:
+            twins[n] = "db:\n  password: &pw %s\n  replica: *pw\ntoken: %s\nnote: plain\n" % (
+                fe.encrypt_text(p1, OLD_ID), fe.encrypt_text(p2, OLD_ID))
+    files.update(twins)
     t0 = 1_000_000_000
     for n, t in files.items():
         with open(os.path.join(wd, n), "w", encoding="utf-8") as fh:
@@ -472,11 +479,29 @@ def check_multi(col, wd, spec):
         plain_after = fh.read()
     with open(os.path.join(wd, "secret.yaml"), encoding="utf-8") as fh:
         sec_after = fh.read()
+    twins_after = {}
+    for n in twins:
+        with open(os.path.join(wd, n), encoding="utf-8") as fh:
+            twins_after[n] = fh.read()
     listing = sorted(os.listdir(wd))
     for n in listing:
         if n not in KEYFILES:
             os.remove(os.path.join(wd, n))
     col.case(("multi", tuple(order), spec["backup"], r["code"]))
+    if r["code"] == 0:
+        for n, text in twins_after.items():
+            doc = gen.load(text)
+            vals = {"db.password": doc["db"]["password"], "db.replica": doc["db"]["replica"], "token": doc["token"]}
+            stale = sorted(k for k, v in vals.items() if _decrypts(fe, str(v), OLD_ID) or not _decrypts(fe, str(v), NEW_ID))
+            if stale:
+                col.witness("C19/secret-not-rotated/multi-file-same-anchor-name", "in a multi-file run a secret of a later file "
+                            "still decrypts under the old keys (or not under the new ones)", spec,
+                            observed={"file": n, "values": stale}, expected="every encrypted value re-keyed")
+            if doc["db"]["password"] is not doc["db"]["replica"]:
+                col.witness("C19/anchored-secret-no-longer-shared/multi-file", "anchor/alias pair split by the rotation", spec,
+                            observed={"file": n}, expected="alias still shares the anchored value")
+            if doc.get("note") != "plain":
+                col.witness("C19/plaintext-changed/multi-file", "a non-encrypted value changed", spec, observed={"file": n}, expected="plain")
     if r["code"] != 0:
         col.witness("C19/rotation-fails-on-valid-input/multi-file-exit-%s" % r["code"], "multi-file run fails", spec,
                     observed={"exit": r["code"], "err": r["err"][:200], "exc": r["exc"]}, expected=0)
@@ -487,7 +512,7 @@ def check_multi(col, wd, spec):
     if "plain.yaml.bak" in listing:
         col.witness("C19/file-without-secrets-backed-up", "secret-less file backed up in a multi-file run", spec,
                     observed=listing, expected="no plain.yaml.bak")
-    if sec_after == sec_text:
+    if "secret.yaml" in order and sec_after == sec_text:
         col.witness("C19/file-with-secrets-not-rotated/multi-file", "the file with secrets was left as it was", spec,
                     observed=sec_after[:200], expected="rotated")
 
@@ -619,6 +644,8 @@ def run(tier="quick", seed=0, jobs=None):
             if order == ["plain.yaml"]:
                 continue
             items.append({"kind": "multi", "order": order, "backup": backup})
+    for order in (["site_a.yaml", "site_b.yaml"], ["site_b.yaml", "plain.yaml", "site_a.yaml"], ["secret.yaml", "site_a.yaml", "site_b.yaml"]):
+        items.append({"kind": "multi", "order": order, "backup": False})
     max_len = 7
     for pre in itertools.product(ALPHABET, repeat=2):
         items.append({"kind": "marker-chunk", "prefix": "".join(pre), "max_len": max_len})
